@@ -221,6 +221,46 @@ func checkC02(c *core.Ctx) {
 		c.Count("limit_cases", 1)
 	})
 
+	// value lists that print to the same characters when their fractions are run together ([1, 11/2] and
+	// [11, 1/2]; [1/2, 13/4] and [1/21, 3/4]) inside one document: each instance has its own length
+	collide := [][2][]model.Frac{
+		{{{Num: 1, Den: 1}, {Num: 11, Den: 2}}, {{Num: 11, Den: 1}, {Num: 1, Den: 2}}},
+		{{{Num: 1, Den: 2}, {Num: 13, Den: 4}}, {{Num: 1, Den: 21}, {Num: 3, Den: 4}}},
+		{{{Num: 2, Den: 1}, {Num: 1, Den: 3}}, {{Num: 21, Den: 1}, {Num: 1, Den: 3}, {Num: 1, Den: 1}}},
+		{{{Num: 1, Den: 1}, {Num: 2, Den: 1}}, {{Num: 12, Den: 1}, {Num: 1, Den: 1}}},
+		{{{Num: 3, Den: 4}, {Num: 1, Den: 2}}, {{Num: 3, Den: 41}, {Num: 1, Den: 2}, {Num: 2, Den: 1}}},
+		{{{Num: 1, Den: 12}, {Num: 3, Den: 1}}, {{Num: 1, Den: 1}, {Num: 23, Den: 1}}},
+	}
+	c.Stream("collide", len(collide)*4, func(i int, r *rand.Rand) {
+		pr := collide[i%len(collide)]
+		a, b := pr[0], pr[1]
+		if (i/len(collide))%2 == 1 {
+			a, b = b, a
+		}
+		var p model.Piece
+		if i/len(collide) < 2 {
+			p.Inst = []model.Instance{{Chord: chord(r), Values: a}, {Chord: chord(r), Values: b}, {Chord: chord(r), Values: a}, {Values: b}, {Chord: chord(r), Values: one()}}
+		} else {
+			p.Inst = []model.Instance{{Values: a}, {Values: b}, {Chord: chord(r), Values: b}, {Chord: chord(r), Values: a}}
+		}
+		judgeTiming(c, "collide", i, p, model.Flags{Track: 1 + i%2*2}, writeOpts{}, "")
+	})
+
+	// a document of more than 16 MiB (4200 instances with a lyric of 4 KiB each): every instance is played
+	c.Stream("hugedoc", 1, func(i int, r *rand.Rand) {
+		var p model.Piece
+		lyric := strings.Repeat("la ", 1365)
+		for k := 0; k < 4200; k++ {
+			in := model.Instance{Values: []model.Frac{{Num: uint64(1 + k%7), Den: uint64(1 + k%5)}}, Meta: map[string]string{"lic": lyric}}
+			if k%6 != 5 {
+				in.Chord = chord(r)
+			}
+			p.Inst = append(p.Inst, in)
+		}
+		judgeTiming(c, "hugedoc", i, p, model.Flags{}, writeOpts{outFile: true}, "")
+		c.Extra("hugedoc_bytes", len(p.YAML(model.YAMLStyle{})))
+	})
+
 	// ordinary values written with huge numerals (n*k)/(d*k), the larger numeral just below 2^54, 2^60, 2^63, 2^64
 	type hn struct{ n, d uint64 }
 	hbases := []hn{{3, 2}, {1, 1}, {1, 2}, {5, 4}, {7, 8}, {2, 3}, {1, 64}, {9, 1}}
@@ -251,6 +291,10 @@ func checkC02(c *core.Ctx) {
 		{{Num: 14221632512832, Den: 67108879}},
 		{{Num: 2, Den: 3}, {Num: 1, Den: 1920}},
 		{{Num: 1, Den: 2}, {Num: 1, Den: 3}, {Num: 1, Den: 128}},
+		// dyadic values: exact in float64, but 960 times them lands on the half tick the true count misses by 2^-46
+		{{Num: 4487180253729041, Den: 4503599627370496}},
+		{{Num: 4243235273913139, Den: 4503599627370496}},
+		{{Num: 1, Den: 2}, {Num: 775228998357265, Den: 2251799813685248}},
 	}
 	c.Stream("nearhalfsums", len(nearSums)*3, func(i int, r *rand.Rand) {
 		v := nearSums[i%len(nearSums)]
